@@ -1,3 +1,4 @@
+import TinysetModel.Generated.Loops
 import TinysetModel.Proofs.ProgramRefine
 import TinysetModel.Proofs.PropsAux
 import TinysetModel.Proofs.Demo
@@ -220,6 +221,140 @@ theorem ideal_operand_unchanged (m : Ideal) (k i j l : Nat) (h : l ≠ k) :
     pspecCore m (.uniRef k i j) l = m l ∧ pspecCore m (.difRef k i j) l = m l := by
   simp [pspecCore, Ideal.upd, h]
 
+/-! ### the operators of the model are the operator bodies of the current source: `Generated/Loops.lean` holds the four
+bodies of the `impl_set_methods!` macro (`copyset.rs`) translated on every run into the SCRIPT each runs on the set it
+returns — where that set starts (0 `self` itself, 1 `with_capacity_of(&self)`, 2 `with_capacity_of(&rhs)`, 3 `new()`) and the
+`insert` (1) / `remove` (0) calls in order; the operands' `len()`, iteration and `contains` are parameters -/
+
+/-- running a script with the model's `insert` / `remove` -/
+def runScript (c : Cfg) (g : Rng D) (fuel : Nat) (a b : Rp) (s : Nat × List (Nat × Nat)) : M D Rp :=
+  s.2.foldlM (fun r (op : Nat × Nat) =>
+      if op.1 = 1 then (do let (r', _) ← insert c g fuel r op.2; pure r')
+      else (do let (r', _) ← remove c g fuel r op.2; pure r'))
+    (if s.1 = 0 then a else if s.1 = 1 then withCapOf a else if s.1 = 2 then withCapOf b else .empty)
+
+theorem foldlM_append_ops (f : Rp → Nat × Nat → M D Rp) (l1 l2 : List (Nat × Nat)) (r : Rp) :
+    (l1 ++ l2).foldlM f r = (do let r' ← l1.foldlM f r; l2.foldlM f r') := by
+  simp [List.foldlM_append]
+
+theorem sub_ref_loop_eq (sl rl st : Nat) (pr : List Nat) (f : Nat → Bool) : ∀ (xs : List Nat) (ops : List (Nat × Nat)),
+    Gen.sub_ref_loop1 sl rl pr f st xs ops = (st, ops ++ (xs.filter (fun v => !f v)).map (fun v => (1, v))) := by
+  intro xs
+  induction xs with
+  | nil => intro ops; simp [Gen.sub_ref_loop1]
+  | cons x xs ih =>
+    intro ops
+    cases hx : f x <;> simp [Gen.sub_ref_loop1, hx, ih, List.filter_cons]
+theorem sub_own_loop_eq (sl rl st : Nat) (pl : List Nat) (f : Nat → Bool) : ∀ (xs : List Nat) (ops : List (Nat × Nat)),
+    Gen.sub_own_loop1 sl rl pl f st xs ops = (st, ops ++ xs.map (fun v => (0, v))) := by
+  intro xs
+  induction xs with
+  | nil => intro ops; simp [Gen.sub_own_loop1]
+  | cons x xs ih => intro ops; simp [Gen.sub_own_loop1, ih]
+theorem bitor_own_loop_eq (sl rl st : Nat) (pl : List Nat) (f : Nat → Bool) : ∀ (xs : List Nat) (ops : List (Nat × Nat)),
+    Gen.bitor_own_loop1 sl rl pl f st xs ops = (st, ops ++ xs.map (fun v => (1, v))) := by
+  intro xs
+  induction xs with
+  | nil => intro ops; simp [Gen.bitor_own_loop1]
+  | cons x xs ih => intro ops; simp [Gen.bitor_own_loop1, ih]
+theorem bitor_ref_loop2_eq (sl rl st : Nat) (pl : List Nat) (f : Nat → Bool) : ∀ (xs : List Nat) (ops : List (Nat × Nat)),
+    Gen.bitor_ref_loop2 sl rl pl f st xs ops = (st, ops ++ xs.map (fun v => (1, v))) := by
+  intro xs
+  induction xs with
+  | nil => intro ops; simp [Gen.bitor_ref_loop2]
+  | cons x xs ih => intro ops; simp [Gen.bitor_ref_loop2, ih]
+theorem bitor_ref_loop1_eq (sl rl st : Nat) (pl pr : List Nat) (f : Nat → Bool) : ∀ (xs : List Nat) (ops : List (Nat × Nat)),
+    Gen.bitor_ref_loop1 sl rl pl pr f st xs ops = (st, ops ++ xs.map (fun v => (1, v)) ++ pr.map (fun v => (1, v))) := by
+  intro xs
+  induction xs with
+  | nil => intro ops; simp [Gen.bitor_ref_loop1, bitor_ref_loop2_eq]
+  | cons x xs ih => intro ops; simp [Gen.bitor_ref_loop1, ih]
+
+theorem foldlM_ins_map (c : Cfg) (g : Rng D) (fuel : Nat) : ∀ (xs : List Nat) (r : Rp),
+    (xs.map (fun v => ((1 : Nat), v))).foldlM (fun r (op : Nat × Nat) =>
+      if op.1 = 1 then (do let (r', _) ← insert c g fuel r op.2; pure r')
+      else (do let (r', _) ← remove c g fuel r op.2; pure r')) r = extend c g fuel r xs := by
+  intro xs
+  induction xs with
+  | nil => intro r; rfl
+  | cons x xs ih =>
+    intro r
+    simp only [List.map_cons, List.foldlM_cons, extend, insertAll, if_true]
+    congr 1
+    funext r'
+    exact ih r'
+theorem foldlM_rem_map (c : Cfg) (g : Rng D) (fuel : Nat) : ∀ (xs : List Nat) (r : Rp),
+    (xs.map (fun v => ((0 : Nat), v))).foldlM (fun r (op : Nat × Nat) =>
+      if op.1 = 1 then (do let (r', _) ← insert c g fuel r op.2; pure r')
+      else (do let (r', _) ← remove c g fuel r op.2; pure r')) r = removeAll c g fuel r xs := by
+  intro xs
+  induction xs with
+  | nil => intro r; rfl
+  | cons x xs ih =>
+    intro r
+    simp only [List.map_cons, List.foldlM_cons, removeAll, show ¬ ((0 : Nat) = 1) from by decide, if_false]
+    congr 1
+    funext r'
+    exact ih r'
+
+/-- **the four operator forms of the model are the operator bodies of the source**: the script each translated body
+produces — fed with the model's `len`, members and `contains` of the operands — run with the model's `insert` /
+`remove` IS `diffRef` / `diffOwn` / `unionRef` / `unionOwn`, about which the theorems above speak -/
+theorem operators_are_the_source (c : Cfg) (g : Rng D) (fuel : Nat) (a b : Rp) :
+    runScript c g fuel a b (Gen.sub_ref (len a) (len b) (elems c a) (elems c b) (contains c b)) = diffRef c g fuel a b ∧
+    runScript c g fuel a b (Gen.sub_own (len a) (len b) (elems c a) (elems c b) (contains c b)) = diffOwn c g fuel a b ∧
+    runScript c g fuel a b (Gen.bitor_ref (len a) (len b) (elems c a) (elems c b) (contains c b)) = unionRef c g fuel a b ∧
+    runScript c g fuel a b (Gen.bitor_own (len a) (len b) (elems c a) (elems c b) (contains c b)) = unionOwn c g fuel a b := by
+  refine ⟨?_, ?_, ?_, ?_⟩
+  · simp only [runScript, Gen.sub_ref, sub_ref_loop_eq, List.nil_append, diffRef]
+    exact foldlM_ins_map c g fuel _ _
+  · simp only [runScript, Gen.sub_own, sub_own_loop_eq, List.nil_append, diffOwn]
+    exact foldlM_rem_map c g fuel _ _
+  · simp only [runScript, Gen.bitor_ref, bitor_ref_loop1_eq, List.nil_append, unionRef]
+    rw [← List.map_append, foldlM_ins_map]
+    simp only [extend, insertAll, List.foldlM_append]
+    by_cases h : len a > len b <;> simp [h]
+  · simp only [runScript, Gen.bitor_own, bitor_own_loop_eq, List.nil_append, unionOwn]
+    exact foldlM_ins_map c g fuel _ _
+
+theorem set64_sub_loop_eq (sl rl st : Nat) (pr : List Nat) (f : Nat → Bool) : ∀ (xs : List Nat) (ops : List (Nat × Nat)),
+    Gen.set64_sub_loop1 sl rl pr f st xs ops = (st, ops ++ (xs.filter (fun v => !f v)).map (fun v => (1, v))) := by
+  intro xs
+  induction xs with
+  | nil => intro ops; simp [Gen.set64_sub_loop1]
+  | cons x xs ih =>
+    intro ops
+    cases hx : f x <;> simp [Gen.set64_sub_loop1, hx, ih, List.filter_cons]
+theorem set64_bitor_loop2_eq (sl rl st : Nat) (pl : List Nat) (f : Nat → Bool) : ∀ (xs : List Nat) (ops : List (Nat × Nat)),
+    Gen.set64_bitor_loop2 sl rl pl f st xs ops = (st, ops ++ xs.map (fun v => (1, v))) := by
+  intro xs
+  induction xs with
+  | nil => intro ops; simp [Gen.set64_bitor_loop2]
+  | cons x xs ih => intro ops; simp [Gen.set64_bitor_loop2, ih]
+theorem set64_bitor_loop1_eq (sl rl st : Nat) (pl pr : List Nat) (f : Nat → Bool) : ∀ (xs : List Nat) (ops : List (Nat × Nat)),
+    Gen.set64_bitor_loop1 sl rl pl pr f st xs ops = (st, ops ++ xs.map (fun v => (1, v)) ++ pr.map (fun v => (1, v))) := by
+  intro xs
+  induction xs with
+  | nil => intro ops; simp [Gen.set64_bitor_loop1, set64_bitor_loop2_eq]
+  | cons x xs ih => intro ops; simp [Gen.set64_bitor_loop1, ih]
+
+/-- `Set64<T>` (`set64.rs`; its `with_capacity` is `new()`, pinned): `&a - &b` and `&a | &b` -/
+theorem operators64_are_the_source (c : Cfg) (g : Rng D) (fuel : Nat) (a b : Rp) :
+    runScript c g fuel a b (Gen.set64_sub (len a) (len b) (elems c a) (elems c b) (contains c b)) = diffRef64 c g fuel a b ∧
+    runScript c g fuel a b (Gen.set64_bitor (len a) (len b) (elems c a) (elems c b) (contains c b)) = unionRef64 c g fuel a b := by
+  refine ⟨?_, ?_⟩
+  · simp only [runScript, Gen.set64_sub, set64_sub_loop_eq, List.nil_append, diffRef64]
+    exact foldlM_ins_map c g fuel _ _
+  · simp only [runScript, Gen.set64_bitor, set64_bitor_loop1_eq, List.nil_append, unionRef64]
+    rw [← List.map_append, foldlM_ins_map]
+    simp only [extend, insertAll, List.foldlM_append]
+    rfl
+
+/-- not vacuous: the scripts of `&{1,2,3} - &{2}` and of `&{1} | &{2,3}` (the longer operand sizes the result) -/
+example : Gen.sub_ref 3 1 [1, 2, 3] [2] (fun v => v == 2) = (1, [(1, 1), (1, 3)]) ∧
+    Gen.bitor_ref 1 2 [1] [2, 3] (fun _ => false) = (2, [(1, 1), (1, 2), (1, 3)]) ∧
+    Gen.sub_own 3 1 [1, 2, 3] [2] (fun _ => false) = (0, [(0, 2)]) := by decide
+
 end C09
 
 #print axioms C09.union_ref
@@ -231,3 +366,4 @@ end C09
 #print axioms C09.union_ref_self
 #print axioms C09.diff_ref_self
 #print axioms C09.diff_own_self
+#print axioms C09.operators_are_the_source
